@@ -1,0 +1,23 @@
+//go:build verif
+
+// Contracts for package secrets, read by /verif/gocv (comment-only; no code).
+package secrets
+
+//@ axiom [eof-is-an-error] io.EOF != nil
+
+// the secret calls action at most once, with its bytes; the error is the action's or the secret's own
+//@ iface BytesWrapper.WithBytes
+//@   names action
+//@   opt callback action
+//@   ensures !cb_called ==> err != nil
+//@   ensures cb_called ==> (err == cb_ret0 || err != nil)
+
+// Read copies the next bytes of the secret inside a reader callback and keeps no reference to them
+//@ func (*Reader).Read
+//@   names r, p
+//@   facet C11
+//@   safety C11
+//@   requires r != nil && r.secret != nil && r.i >= 0
+//@   modifies r.i, p[*]
+//@   ensures [C11:position-advances-by-what-was-copied] n >= 0 && n <= len(p) && r.i == old(r.i) + n
+//@   ensures [C11:a-short-read-reports-the-end] err == nil ==> n == len(p)
